@@ -56,7 +56,7 @@ def meta(tier):
                 'references = .byte name, constants, .org, .memzone, 6 catalogue includes, 6 ill-named labels) up to the depth '
                 'bound, each in two variants (as is / with closing definitions for referenced-but-undefined global and file '
                 'labels, which makes them forward references); expected = value of the unique visible definition or rejection; '
-                'plus labels / constants named like a register under 4 register spellings (lower, upper, mixed case) x 5 positions (must be rejected) and near-miss names (accepted); plus 8 kinds of reference (visible and invisible: other region, other file, cut off by an origin, undefined) x 4 uses x {muted, unmuted} x {main file, included file}; non-trivial = history in which one name is defined in two scopes or referenced outside the defining scope; '
+                'plus labels / constants named like a register under 4 register spellings (lower, upper, mixed case) x 5 positions (must be rejected) and near-miss names (accepted); plus 8 kinds of reference (visible and invisible: other region, other file, cut off by an origin, undefined) x 4 uses x {muted, unmuted} x {main file, included file}; invisible local / file labels inside the brackets of an indirect operand while a global label has the same name without the prefix; non-trivial = history in which one name is defined in two scopes or referenced outside the defining scope; '
                 'states = distinct reference label tables',
         'bounds': {'alphabet': [str(s) for s in sigma(0)], 'depth_full': 3 if q else 4, 'depth_core': 4 if q else 5,
                    'core_alphabet': [str(sigma(0)[i]) for i in CORE_IDX],
@@ -153,6 +153,7 @@ def shard(acc, tier, idx, n):
                 run_program(acc, PARAMS, ISA, files2, clause=clause, nontrivial=(h, 'closed') if nt else None, sample=False)
     register_names(acc, idx, n)
     muted_references(acc, idx, n)
+    bracketed_references(acc, idx, n)
 
 
 def register_names(acc, idx, n):
@@ -231,6 +232,33 @@ def muted_references(acc, idx, n):
                 visible_here = visible
             files = {'main.asm': main + [('include', 'ri.asm'), ('data', 1, [0xEE])], 'ri.asm': inc + body}
         ref, out, msg = run_program(acc, PARAMS, ISA, files, clause=clause, nontrivial=('muted-ref', name, ui, muted, where), sample=(ctr % 17 == 0))
+
+
+def bracketed_references(acc, idx, n):
+    """A local or file label written inside the brackets of an indirect operand is still that label: with no visible definition it is
+    rejected, also when a global label has the same name without the prefix (what happens when the definition is visible is left to
+    the operand-matching properties)."""
+    from mc.judges import judge_expect
+    from mc.props import c10
+    from mc.world import Case
+    ctr = 0
+    for ref, kind in (('.buf', 'local label of another region'), ('.nowhere', 'local label defined nowhere'), ('_fbuf', 'file label of the included file'),
+                      ('.ibuf', 'local label of the included file')):
+        for use in ('ldm [{}]', 'ldm [ {} ]', 'ldm [{}+1]', 'jmp {}', 'ldi a, {}'):
+            ctr += 1
+            if ctr % n != idx:
+                continue
+            main = ['first:', '.buf: nop', 'second:', '    nop', 'buf: nop', 'nowhere: nop', 'fbuf: nop', 'ibuf: nop', '#include "br.asm"', 'third:',
+                    '    ' + use.format(ref), '    .byte $EE']
+            files = {'main.asm': '\n'.join(main) + '\n', 'br.asm': '_fbuf: nop\ngi:\n.ibuf: nop\n'}
+            case = Case(dict(c10.BASE_ISA), files)
+            out = acc.run(case)
+            acc.transition()
+            spec = {'expect': 'REJECT', 'why': f'{ref} ({kind}) has no visible definition where it is used', 'use': use.format(ref)}
+            msg = judge_expect(spec, [out])
+            if msg:
+                acc.violation([case], spec, f'{use.format(ref)!r} - {kind}: {msg}', [out])
+            acc.judge(clause='rejected-invisible', nontrivial_key=('bracket', ref, use))
 
 
 def judge(spec, outcomes):
